@@ -168,7 +168,7 @@ def r19_2(ctx: Ctx, entry, pr, prev, class_table):
                key=f"R19.2|validate_tjp_file|{need}")
     # stdin: empty input -> exit-1 class
     for n in own_nodes(entry):
-        if isinstance(n, ast.If) and "stdin_content" in norm(n.test) and "strip" in norm(n.test):
+        if isinstance(n, ast.If) and "stdin" in norm(n.test) and "strip" in norm(n.test):
             rr = [x for b in n.body for x in ast.walk(b) if isinstance(x, ast.Raise)]
             ok = bool(rr) and all(dotted(x.exc) in fnf for x in rr)
             ctx.ob("R19.2", f"{entry.qual}: empty stdin", (entry, n), ok,
@@ -445,13 +445,30 @@ def r19_8(ctx: Ctx, entry):
                "so a missing input ends as an internal error (exit 2)",
                key=key_of("R19.8", vt, c, "probe guarded"))
     # (c) emptiness
-    file_strip = any(isinstance(x, ast.Call) and isinstance(x.func, ast.Attribute) and x.func.attr == "strip" for x in own_nodes(vt))
-    stdin_strip = any(isinstance(i, ast.If) and "stdin" in norm(i.test) and "strip" in norm(i.test) for i in own_nodes(entry))
+    def strip_kind(fn, pred):
+        """'bytes' / 'text' / None: what the emptiness test strips (white space of bytes is ASCII only; of text it includes NBSP etc.)"""
+        from ..order import local_resolver as _lr19b
+        res_ = _lr19b(fn.node)
+        for x in own_nodes(fn):
+            if isinstance(x, ast.Call) and isinstance(x.func, ast.Attribute) and x.func.attr == "strip" and pred(x):
+                recv = x.func.value
+                t = norm(recv)
+                vals = res_(recv) if isinstance(recv, ast.Name) else [recv]
+                tv = " ".join(norm(v) for v in vals) + " " + t
+                if ".decode(" in tv:
+                    return "text"
+                if "read_bytes" in tv or "buffer.read" in tv or "bytes" in t.lower():
+                    return "bytes"
+                return "text"
+        return None
+    file_kind = strip_kind(vt, lambda x: True)
+    stdin_kind = strip_kind(entry, lambda x: "stdin" in norm(x))
     stdin_test = any(isinstance(i, ast.If) and "stdin" in norm(i.test) and norm(i.test).startswith("not ") for i in own_nodes(entry))
     if not stdin_test:
         raise AnchorMissing("plan.report: emptiness test of stdin not found")
-    ok = file_strip == stdin_strip
-    ctx.ob("R19.8", f"empty input: file test ignores white space={file_strip}, stdin test ignores white space={stdin_strip}", vt, ok,
+    ok = file_kind == stdin_kind
+    file_strip, stdin_strip = file_kind, stdin_kind
+    ctx.ob("R19.8", f"empty input: file test strips {file_strip}, stdin test strips {stdin_strip}", vt, ok,
            "a file and the same bytes on stdin are judged empty alike" if ok else
            "a file is empty only at size 0 while stdin is empty when it holds nothing but white space (or the reverse): the same bytes exit 1 "
            "through one channel and 2 through the other",
